@@ -93,10 +93,18 @@ func timeOff(t *time.Time) *int {
 	return &s
 }
 
+var longPad = strings.Repeat("_", 70000)
+
 var perms = [][]string{{"present"}, {"present", "message"}}
 
 func (r rec) stateful() *token.Stateful {
 	u := fmt.Sprintf("u%d", r.data)
+	if r.data == 7 {
+		// a token whose line in the file is longer than 64 KiB (a username of that
+		// size is accepted by the API, whose body limit is 1 MiB): the reader of
+		// the file must take it whole, like every other line
+		u += longPad
+	}
 	return &token.Stateful{
 		Token:       tokNames[r.name],
 		Group:       grpNames[r.group],
@@ -119,7 +127,7 @@ func idx(l []string, s string) int {
 func toRec(s *token.Stateful) rec {
 	r := rec{name: idx(tokNames, s.Token), group: idx(grpNames, s.Group),
 		exp: timeOff(s.Expires), nbf: timeOff(s.NotBefore), data: -1}
-	if s.Username != nil && len(*s.Username) == 2 && (*s.Username)[0] == 'u' {
+	if s.Username != nil && (len(*s.Username) == 2 || *s.Username == "u7"+longPad) && (*s.Username)[0] == 'u' {
 		d := int((*s.Username)[1] - '0')
 		if d >= 0 && d <= 9 && fmt.Sprint(s.Permissions) == fmt.Sprint(perms[d%2]) &&
 			!s.IncludeSubgroups {
